@@ -377,7 +377,10 @@ def handle (sess : Sess) (rep : Report) (ln : Nat) (toks : List String) (obs : S
     let a := args rest
     match (arg a "a").toNat?, (arg a "b").toNat?, (arg a "picker").toNat? with
     | some ca, some cb, some pn =>
-      let mk (c : Nat) : Op := .pick c pn "plain" .gcp none (.msg { key := "", keys := [] })
+      let pn2 := (arg a "picker2").toNat?.getD pn
+      let method := if arg a "m" == "" then "plain" else arg a "m"
+      let reqOf (k : String) : Req := if arg a k == "" then .msg { key := "", keys := [] } else parseReq (arg a k)
+      let mk (c : Nat) : Op := if c == ca then .pick c pn method .gcp none (reqOf "req") else .pick c pn2 method .gcp none (reqOf "req2")
       let parts := obs.splitOn " ; "
       let resOf (tag : String) : String :=
         match parts.find? (fun e => e.startsWith tag) with
